@@ -140,6 +140,8 @@ def _worker(args):
         import fst
         if payload.get('norm', True):
             fst.FST.set_options(norm=True)
+        if payload.get('defaults'):      # thread-default option values for the whole sweep (e.g. docstr='strict')
+            fst.FST.set_options(**payload['defaults'])
         random.seed(zlib.crc32(f'{payload.get("seed", 0)}:{name}'.encode()))
         return name, getattr(m, fn)(name, src, payload)
     except Exception as e:
